@@ -256,6 +256,59 @@ def round_trips(ctx, repo):
                 ok2, why2 = bv_equals_field(rx2.attrs.get("sequence"), "ackseq", 8)
                 ctx.ob("R2", f"{key}::ack-decodes", ok2, f"STATQ acknowledgement does not decode to its sequence: {why2}", repo.method(cname, "handle").loc)
             ctx.ob("R2", f"{key}::ack-layout", ok, f"STATP acknowledgement: {why}", repo.method(cname, "handle").loc)
+    # ---- persistent handlers: decoding message Y after message X on the SAME handler instance must
+    # give Y's fields - nothing decoded from X may survive (listening handlers are long-lived:
+    # the simulator and the consume tasks keep one instance per verb family)
+    by_class = {}
+    for row in table:
+        by_class.setdefault(row[0], []).append(row)
+    n_pairs = 0
+    for cname, rows in sorted(by_class.items()):
+        wires = []
+        for _c, builder, args, expect, desc in rows:
+            try:
+                msg = build_message(repo, interp, cname, builder, args)
+                w = wire_of(msg)
+                if w is None:
+                    continue
+                w = SymBytes.of(w)
+                if w.concrete() is not None:
+                    w = w.concrete()
+                ok_own = can_handle(repo, interp, repo.cls(cname), fresh_handler(repo, interp, repo.cls(cname)), w)
+            except (PyRaise, Undecided):
+                continue
+            if ok_own:
+                wires.append((builder, desc, w, expect))
+        c = repo.cls(cname)
+        for bx, dx, wx, _ex in wires:
+            for by, dy, wy, ey in wires:
+                if dx == dy:
+                    continue
+                sock = Obj(None, {"queue_send": Native(lambda a, k: None),
+                                  "get_and_increment_sequence_counter": Native(lambda a, k: F("ackseq", 8))}, name="socket")
+                try:
+                    rx = fresh_handler(repo, interp, c, sock)
+                    hfi = repo.method(cname, "handle")
+                    interp.steps = 0
+                    interp.call(hfi, rx, [wx, SENDER])
+                    interp.steps = 0
+                    interp.call(hfi, rx, [wy, SENDER])
+                except PyRaise as e:
+                    ctx.ob("R2", f"{cname}[{dx} then {dy}]::decodes", False, f"{cname}.handle raises {e.what} decoding {dy} after {dx} on one handler instance", repo.method(cname, "handle").loc)
+                    continue
+                except Undecided as e:
+                    raise AnalysisError(f"{cname} [{dx} then {dy}]: {e}")
+                n_pairs += 1
+                for attr, exp in ey.items():
+                    if attr in ("_should_remove_handler", "_error_count") or (isinstance(exp, tuple) and exp and exp[0] in ("changes", "reminders")):
+                        continue  # accumulating / life-cycle attributes are C05 / C11 / C20 matters
+                    got = rx.attrs.get(attr, "<unset>")
+                    ok, why = compare(exp, got)
+                    ctx.ob("R2", f"{cname}[{dx} then {dy}]::{attr}", ok,
+                           f"decoding {dy} after {dx} on the same (long-lived) {cname} instance gives `{attr}` wrong: {why} - state decoded from the earlier message survives", repo.method(cname, "handle").loc)
+    ctx.count("R2:sequential_decode_pairs", n_pairs)
+    ctx.floor("R2", "sequential decode pairs", n_pairs, 20)
+
     # async partial handler decodes the same STATP
     try:
         msg = build_message(repo, interp, "GeckoPartialStatusBlockProtocolHandler", "report_changes", [None, message_table()[23][2][1]])
